@@ -18,6 +18,7 @@ import Spec.Resolve
 import Spec.JsonEnc
 import Model.Json
 import Model.Load
+import Model.Generate
 
 open Lean Wire
 
@@ -205,6 +206,11 @@ def handle (j : Json) : String :=
     match Load.inject FUEL inner innerName (getV j "outer") "" false with
     | .error e => errOut e
     | .ok (v, b) => "{\"ok\":" ++ ofVal v ++ ",\"injected\":" ++ (if b then "true" else "false") ++ "}"
+  | "gen.image" =>
+    match parseReq j with
+    | .error e => "{\"perr\":\"" ++ e.name ++ "\"}"
+    | .ok (s, env) =>
+      "{\"ok\":" ++ (if Generate.inImage FUEL env s (getV j "value") then "true" else "false") ++ "}"
   | "spec.choose" =>
     match parseReq j with
     | .error e => "{\"perr\":\"" ++ e.name ++ "\"}"
